@@ -79,6 +79,9 @@ func runAll(root string, only map[string]bool) *Results {
 			if len(obs[i].Props) == 0 {
 				obs[i].Props = r.Props
 			}
+			if r.Narrow != nil {
+				r.Narrow(&obs[i])
+			}
 			if !strings.HasPrefix(obs[i].Key, r.Name+"/") {
 				obs[i].Key = r.Name + "/" + obs[i].Key
 			}
